@@ -40,7 +40,7 @@ class Prop(common.PropertyCheck):
         for _ in range(self.budget(260, 4000)):
             yield {'N': rng.choice([1, 2, 3, 7, 40, 400]), 'D': rng.randrange(2, 7), 'data': rng.choice(['ties', 'const', 'spread', 'spread', 'modal', 'bright', 'negative']),
                    'cont': rng.choice(['array_int', 'array_float', 'array_narrow', 'sample', 'sample', 'sample_rfi', 'sample_mef', 'sample_reordered']),
-                   'chform': rng.choice(['none', 'pos', 'pos0', 'name', 'name_alias', 'list', 'list1', 'perm', 'perm', 'zigzag']), 'seed': rng.randrange(1 << 30)}
+                   'chform': rng.choice(['none', 'pos', 'pos0', 'name', 'name_alias', 'list', 'list1', 'perm', 'perm', 'zigzag', 'repeat']), 'seed': rng.randrange(1 << 30)}
 
     def run_big(self, case):
         """event counts around multiples of 2**16 (block-wise implementations): float reference with exact summation"""
@@ -144,6 +144,11 @@ class Prop(common.PropertyCheck):
             ch, cols = (names[1] if names else 1), [1]
         elif chf == 'list':
             ch, cols = ([names[D - 1], 0] if names else [D - 1, 0]), [D - 1, 0]
+        elif chf == 'repeat':
+            # the same channel requested more than once (by name and by position): one result per request
+            cols = [1, D - 1, 1] if D >= 3 else [1, 1]
+            ch = [names[cols[0]] if names else cols[0], cols[1] - D if D >= 3 else 1] + ([cols[2]] if D >= 3 else [])
+            ch = ch[:len(cols)]
         elif chf in ('perm', 'zigzag'):
             import random
             rr = random.Random(case['seed'])
